@@ -1004,11 +1004,11 @@ def run(rep):
     found = stage_oracle_depfix(rep, rng, 600 if thorough else 120)
     found += stage_system(rep, 12 if thorough else 3, 30 if thorough else 5,
                           (list(RISKY) if thorough else ['%', ':']) + ['$', '#', ' '] + (["'", ',', '('] if thorough else []))
-    if dis and not found:
+    if dis and not rep.n_with_input:
         # the tie is broken but the ordinary budget found no failing input: search with a 10x budget
         found = stage_oracle_depfix(rep, rng, 6000 if thorough else 1200)
         found += stage_system(rep, 20, 5, [])
-    if dis and not found:
+    if dis and not rep.n_with_input:
         i, call, iv, mv = dis[0]
         rep.fail('W:%s - model and implementation disagree (%d cases), e.g. %r: impl %r, model %r' % (
             call[0], len(dis), call[1], iv, mv),
